@@ -16,6 +16,8 @@ import (
 	"verif/harness"
 )
 
+var replayObserveAll bool
+
 // Main is the entry point of `vevm C16 ...`.
 func Main(args []string) int {
 	var maxIface, maxProg int
@@ -26,6 +28,7 @@ func Main(args []string) int {
 		fs.IntVar(&maxProg, "prog-len", 0, "override the maximal number of snippets per program (0 = tier default)")
 		fs.BoolVar(&noBFS, "no-bfs", false, "skip the merged breadth-first search (thorough tier)")
 		fs.StringVar(&cpuProfile, "cpuprofile", "", "write a CPU profile (development aid)")
+		fs.BoolVar(&replayObserveAll, "observe-all", false, "with -replay of an interface-level case: print (and thereby call) every getter after every step, not only after the last one; the adapter's getters have side effects (dbErr), so this can change what happens")
 	})
 	if cpuProfile != "" {
 		if f, err := os.Create(cpuProfile); err == nil {
@@ -367,7 +370,7 @@ func replayIface(c ifaceCase, out *os.File) int {
 	}
 	x := newIfaceRun(g)
 	diverged := false
-	show := func(title string) {
+	show := func(title string, getters bool) {
 		fmt.Fprintf(out, "  %s\n", title)
 		if x.lastA != "" || x.lastR != "" {
 			mark := "   "
@@ -376,6 +379,9 @@ func replayIface(c ifaceCase, out *os.File) int {
 				diverged = true
 			}
 			fmt.Fprintf(out, "    %s%-20s %-14s adapter=%-70s reference=%s\n", mark, "result of the call", "", x.lastA, x.lastR)
+		}
+		if !getters {
+			return
 		}
 		var na, nr []namedField
 		pa := catch(func() { na = x.namedObservation(true) })
@@ -389,7 +395,8 @@ func replayIface(c ifaceCase, out *os.File) int {
 			diverged = true
 		}
 	}
-	show("step 0: starting state")
+	// like the enumeration, the getters are called once, after the last operation (unless -observe-all)
+	show("step 0: starting state", replayObserveAll || len(ops) == 0)
 	for i, op := range ops {
 		if diverged {
 			break
@@ -400,13 +407,13 @@ func replayIface(c ifaceCase, out *os.File) int {
 		}
 		x.lastA, x.lastR = "", ""
 		x.apply(op)
-		show(fmt.Sprintf("step %d: %s", i+1, op))
+		show(fmt.Sprintf("step %d: %s", i+1, op), replayObserveAll || i == len(ops)-1)
 	}
 	if diverged {
 		fmt.Fprintf(out, "RESULT: the back-ends DISAGREE (lines marked !!)\n")
 		return 1
 	}
-	fmt.Fprintf(out, "RESULT: the back-ends agree on every getter after every step\n")
+	fmt.Fprintf(out, "RESULT: the back-ends agree\n")
 	return 0
 }
 
